@@ -36,8 +36,11 @@ def decode_variants(valid, rnd):
     chunks = [z[a:b] for a, b in zip([0] + cuts, cuts + [len(z)])]
     sid = rnd.getrandbits(31) | 0x80000000
     frags = []
+    # the size field: the largest payload a packet of this response carries (what a server that fills its packets
+    # announces), or the customary 1248
+    announced = max(len(x) for x in chunks) if rnd.random() < 0.5 and max(len(x) for x in chunks) > 0 else 1248
     for i, chunk in enumerate(chunks):
-        head = b"\xfe\xff\xff\xff" + sid.to_bytes(4, "little") + bytes([n, i]) + (1248).to_bytes(2, "little")
+        head = b"\xfe\xff\xff\xff" + sid.to_bytes(4, "little") + bytes([n, i]) + announced.to_bytes(2, "little")
         if i == 0:
             head += len(packet).to_bytes(4, "little") + (zlib.crc32(packet) & 0xFFFFFFFF).to_bytes(4, "little")
         frags.append(head + chunk)
